@@ -59,6 +59,13 @@ func plan(variant int) ([]wop, []map[string]string) {
 			{kind: "update", ev: kcache.NewEvent(kcache.EventTypeUpdate, a("2", "l=0"))},
 			{kind: "update", ev: kcache.NewEvent(kcache.EventTypeDelete, b("2", "l=0"))},
 		}
+	case 3: // a stale relist (older than what an event already installed) must not move the content backwards
+		ops = []wop{
+			{kind: "sync", list: objs(a("1", "l=1"))},
+			{kind: "update", ev: kcache.NewEvent(kcache.EventTypeUpdate, a("2", "l=1"))},
+			{kind: "sync", list: objs(a("1", "l=1"))},
+			{kind: "update", ev: kcache.NewEvent(kcache.EventTypeUpdate, a("3", "l=1"))},
+		}
 	default: // relist + refilter back-to-back replacing everything
 		ops = []wop{
 			{kind: "sync", list: objs(a("1", "l=1"))},
@@ -310,22 +317,38 @@ func scenario(variant, readers int, kinds string, mode string, bound int) runner
 
 // ---- refilter of a filtered subscription, seen by concurrent readers of its cache -------------------------------
 
-// finst: a ready SubscribeWithFilter node over an idle parent holding a{l=1}, b{l=0}; one goroutine calls
-// Refilter(l=0) then Refilter(Null) (the call is asynchronous: it returns before the filter is applied); readers List
-// the subscription's cache.  Every read must be one of the complete views [a] -> [b] -> [a b], not later than the
-// last Refilter call started, and never backwards per reader ("never a half-applied refilter").
+// finst: a ready SubscribeWithFilter node over a parent holding a{l=1}, b{l=0}; one goroutine calls Refilter(l=0)
+// then Refilter(Null) (the call is asynchronous: it returns before the filter is applied); with del, another one
+// deletes a from the parent meanwhile; readers List the subscription's cache.  Every read must be a complete view
+// view(filter i, parent j) - filters l=1 -> l=0 -> Null, parent {a,b} -> {b} - not later than the calls started, and
+// never backwards in either coordinate per reader ("never a half-applied refilter"); the read at final quiescence is
+// view(Null, final parent).
 type finst struct {
 	readers, nreads int
-	started         int
+	del             bool
+	started         int // Refilter calls started
+	delStarted      int // parent deletes started
 	reads           []read
-	views           []string
+	views           [3][2]string
+	final           string
 	done            int
+	drivers         int
 }
 
 func (in *finst) run() {
 	a := hx.Pod("ns", "a", "1", "l=1")
 	b := hx.Pod("ns", "b", "1", "l=0")
-	in.views = []string{hx.ListString(objs(a)), hx.ListString(objs(b)), hx.ListString(objs(a, b))}
+	for fi, f := range []int{2, 3, 0} {
+		for pj, content := range [][]metav1.Object{objs(a, b), objs(b)} {
+			var v []metav1.Object
+			for _, o := range content {
+				if hx.RefAccept(f, o) {
+					v = append(v, o)
+				}
+			}
+			in.views[fi][pj] = hx.ListString(v)
+		}
+	}
 	root := hx.NewRoot(filter.Null())
 	root.Init(objs(a, b))
 	fs, err := root.Pub.SubscribeWithFilter(hx.MkFilter(2))
@@ -339,6 +362,7 @@ func (in *finst) run() {
 		}
 	}()
 	fin := make(chan bool)
+	in.drivers = 1
 	go func() {
 		for _, f := range []int{3, 0} {
 			vs.Atomic("hist", func() { in.started++ })
@@ -348,6 +372,14 @@ func (in *finst) run() {
 		}
 		fin <- true
 	}()
+	if in.del {
+		in.drivers++
+		go func() {
+			vs.Atomic("hist", func() { in.delStarted++ })
+			root.Publish(kcache.NewEvent(kcache.EventTypeDelete, hx.Pod("ns", "a", "2", "l=1")))
+			fin <- true
+		}()
+	}
 	for r := 0; r < in.readers; r++ {
 		r := r
 		go func() {
@@ -357,38 +389,61 @@ func (in *finst) run() {
 					vs.Fail("List: %v", err)
 				}
 				vs.Atomic("hist", func() {
-					in.reads = append(in.reads, read{reader: r, kind: "list", t2: in.started, result: hx.ListString(l)})
+					in.reads = append(in.reads, read{reader: r, kind: "list", t1: in.delStarted, t2: in.started, result: hx.ListString(l)})
 				})
 			}
 			fin <- true
 		}()
 	}
-	for i := 0; i < in.readers+1; i++ {
+	for i := 0; i < in.readers+in.drivers; i++ {
 		<-fin
 		in.done++
+	}
+	vs.SleepIdle(1)
+	if l, err := fs.Cache().List(); err == nil {
+		in.final = hx.ListString(l)
 	}
 	root.Stop()
 }
 
 func (in *finst) check(r *vs.Result) []string {
 	var msgs []string
-	if in.done != in.readers+1 {
-		return []string{fmt.Sprintf("hang: only %d of %d drivers finished; blocked: %v", in.done, in.readers+1, r.Blocked)}
+	if in.done != in.readers+in.drivers {
+		return []string{fmt.Sprintf("hang: only %d of %d drivers finished; blocked: %v", in.done, in.readers+in.drivers, r.Blocked)}
 	}
-	last := map[int]int{}
+	type st struct{ f, p int }
+	last := map[int][]st{}
 	for _, rd := range in.reads {
-		match := -1
-		for j := last[rd.reader]; j <= rd.t2 && j < len(in.views); j++ {
-			if in.views[j] == rd.result {
-				match = j
-				break
+		prev := last[rd.reader]
+		if prev == nil {
+			prev = []st{{0, 0}}
+		}
+		var next []st
+		for f := 0; f <= rd.t2 && f < 3; f++ {
+			for p := 0; p <= rd.t1 && p < 2; p++ {
+				if in.views[f][p] != rd.result {
+					continue
+				}
+				for _, q := range prev {
+					if f >= q.f && p >= q.p {
+						next = append(next, st{f, p})
+						break
+					}
+				}
 			}
 		}
-		if match < 0 {
-			msgs = append(msgs, fmt.Sprintf("half-applied refilter visible | reader %d of a filtered subscription's cache got %s: not one of the complete views %v reachable with %d Refilter calls started (previous read: view %d)", rd.reader, rd.result, in.views, rd.t2, last[rd.reader]))
+		if len(next) == 0 {
+			msgs = append(msgs, fmt.Sprintf("half-applied refilter visible | reader %d of a filtered subscription's cache got %s: not a complete view (filters l=1,l=0,Null x parent with/without a: %v) reachable with %d Refilter calls and %d parent deletes started and not behind its previous read %v", rd.reader, rd.result, in.views, rd.t2, rd.t1, prev))
 			continue
 		}
-		last[rd.reader] = match
+		last[rd.reader] = next
+	}
+	want := in.views[2][0]
+	if in.del {
+		want = in.views[2][1]
+	}
+	if in.final != want {
+		msgs = append(msgs, fmt.Sprintf("refilter mixes an old snapshot with newer events | at quiescence the filtered subscription's cache holds %s, the last filter (Null) over the final parent content gives %s", in.final, want))
 	}
 	return msgs
 }
@@ -398,16 +453,20 @@ func (in *finst) outcome() string {
 	for _, rd := range in.reads {
 		fmt.Fprintf(&b, "%d=%s;", rd.reader, rd.result)
 	}
-	return b.String()
+	return b.String() + in.final
 }
 
 func fscenario(readers, nreads int, mode string, bound int) runner.Sc {
+	return fscenarioDel(false, readers, nreads, mode, bound)
+}
+
+func fscenarioDel(del bool, readers, nreads int, mode string, bound int) runner.Sc {
 	return runner.Sc{
 		Scenario: explore.Scenario{
-			Name: fmt.Sprintf("c15/fsub-refilter/r%d/reads%d/%s%d", readers, nreads, mode, bound), Mode: mode, Bound: bound,
+			Name: fmt.Sprintf("c15/fsub-refilter%s/r%d/reads%d/%s%d", map[bool]string{true: "+parent-delete"}[del], readers, nreads, mode, bound), Mode: mode, Bound: bound,
 			Cfg: vs.Config{Timers: vs.TimersIdle, MaxSteps: 200000},
 			New: func() explore.Instance {
-				in := &finst{readers: readers, nreads: nreads}
+				in := &finst{readers: readers, nreads: nreads, del: del}
 				return explore.Instance{Run: in.run, Check: in.check, Outcome: in.outcome}
 			},
 		},
@@ -426,14 +485,14 @@ func Property() runner.Property {
 		},
 		Scenarios: func(tier string) []runner.Sc {
 			var out []runner.Sc
-			for v := 0; v < 3; v++ {
+			for v := 0; v < 4; v++ {
 				out = append(out, scenario(v, 1, "list,geta,getb,list", "S1", 0))
 				out = append(out, scenario(v, 2, "list", "S1", 0))
 				out = append(out, scenario(v, 2, "list,geta,getb,list", "S2", 2))
 			}
-			out = append(out, fscenario(1, 2, "S2", 3), fscenario(2, 2, "S2", 3))
+			out = append(out, fscenario(1, 2, "S2", 3), fscenario(2, 2, "S2", 3), fscenarioDel(true, 1, 2, "S2", 3))
 			if tier == "thorough" {
-				out = append(out, fscenario(1, 2, "S1", 0), fscenario(2, 2, "S2", 4), fscenario(3, 2, "S2", 3))
+				out = append(out, fscenario(1, 2, "S1", 0), fscenario(2, 2, "S2", 4), fscenario(3, 2, "S2", 3), fscenarioDel(true, 2, 2, "S2", 4))
 				for v := 0; v < 3; v++ {
 					s := scenario(v, 2, "list,list", "S1", 0)
 					s.TableBits = 26
